@@ -32,12 +32,21 @@ def denBy : Rd → List UInt8
   | _ => []
 end
 
+/-! ### bitio.Buffer -/
+
+/-- the unread bits of a bitio.Buffer -/
+def Buffer.content (b : Buffer) : Bits := slice (bytesToBits b.buf) b.bitsOff (b.bufBits - b.bitsOff)
+
+def Buffer.WF (b : Buffer) : Prop := b.bufBits ≤ 8 * b.buf.length ∧ b.bitsOff ≤ b.bufBits
+
 /-! ### what a ReadBitsAt / ReadBits result must satisfy -/
 
 /-- `r` is a correct answer to "read n bits at bit offset off" from the bit string `d`:
     the returned bits are exactly d[off, off+k) with k = r.n ≤ n, never beyond the logical end; EOF is
     reported only when the read ends at (or starts beyond) the logical end; without an error a non-empty
-    request inside the data makes progress; the only other error is ErrOffset beyond the end (zero reader) -/
+    request inside the data makes progress, and at / beyond the end a non-empty request reports an error
+    (so a caller that loops until it has enough bits terminates); the only other error is ErrOffset beyond
+    the end (zero reader) -/
 structure SoundAt (d : Bits) (off n : Nat) (r : Res) : Prop where
   cnt : r.n = r.bits.length
   le : r.bits.length ≤ n
@@ -45,6 +54,7 @@ structure SoundAt (d : Bits) (off n : Nat) (r : Res) : Prop where
   inb : off + r.bits.length ≤ d.length ∨ r.bits = []
   eof : r.err = some .eof → d.length ≤ off + r.bits.length
   prog : r.err = none → 0 < n → off < d.length → r.bits ≠ []
+  endErr : d.length ≤ off → 0 < n → r.err ≠ none
   errs : r.err = none ∨ r.err = some .eof ∨ (r.err = some .offset ∧ d.length < off ∧ r.bits = [])
   noq : r.q = 0
 
@@ -81,6 +91,43 @@ def posOf : Rd → Nat
 def isReader : Rd → Bool
   | .sect .. | .multi .. | .ioBits .. | .limit .. => true
   | _ => false
+
+/-! ### byte view (IOReader) of a sequential bit reader -/
+
+/-- `sub` behaves like a sequential bit reader over the bit string D: a state related to bit position `pos`
+    by `I` answers ReadBits(n > 0) with 1..n bits of D at `pos`, or with EOF (possibly together with the last
+    bits) exactly when the end of D is reached -/
+def BitsAt (sub : Sub) (D : Bits) (I : Rd → Nat → Prop) : Prop :=
+  ∀ s pos n, 0 < n → I s pos → pos ≤ D.length →
+    ∃ s' res, sub s (.read n) = .ok (s', res) ∧ res.q = 0 ∧ res.bits = slice D pos res.bits.length ∧
+      res.bits.length ≤ n ∧ pos + res.bits.length ≤ D.length ∧ I s' (pos + res.bits.length) ∧
+      ((res.err = none ∧ res.bits ≠ []) ∨ (res.err = some .eof ∧ pos + res.bits.length = D.length))
+
+/-- state of an IOReader over such a source after `j` bytes were delivered: the bit buffer holds exactly the
+    bits between what was delivered and the source position, and a pending error is EOF at the end of D -/
+def IOCore (D : Bits) (I : Rd → Nat → Prop) (j : Nat) (r : Rd) (rErr : Option Err) (buf : Buffer) : Prop :=
+  ∃ pos, buf.WF ∧ I r pos ∧ pos ≤ D.length ∧ j ≤ bitsByteCount D.length ∧ min (8 * j) D.length ≤ pos ∧
+    buf.content = slice D (min (8 * j) D.length) (pos - min (8 * j) D.length) ∧
+    (rErr = none ∨ (rErr = some .eof ∧ pos = D.length))
+
+def IOInv (D : Bits) (I : Rd → Nat → Prop) (j : Nat) : Rd → Prop
+  | .ioBytes r _ rErr buf _ => IOCore D I j r rErr buf ∧ buf.content.length < 8
+  | _ => False
+
+/-- io.Reader.Read with the given buffer sizes, one after the other, until an error is reported:
+    all bytes delivered, and that error -/
+def readAll (d : Nat) : Rd → List Nat → List UInt8 × Option Err
+  | _, [] => ([], none)
+  | s, n :: ns =>
+    match step d s (.readB n) with
+    | .ok (s', res) =>
+      if res.err.isSome then (res.bytes, res.err)
+      else ((res.bytes ++ (readAll d s' ns).1), (readAll d s' ns).2)
+    | _ => ([], some .other)
+
+/-- a well-formed bit reader (see `WFd`) with a ReadBits method, denoting D, standing at position pos -/
+def WFAt (d : Nat) (D : Bits) (s : Rd) (pos : Nat) : Prop :=
+  WFd d s ∧ isReader s = true ∧ den s = D ∧ posOf s = pos
 
 /-! ### aheadreadseeker against bytes.Reader -/
 
